@@ -220,6 +220,16 @@ def run(case):
         for key in ("input_data", "input_data1", "input_data2"):
             if key in mm.data and lazy.get(key, False) and not isinstance(mm.data[key].data, da.Array):
                 F.append(Finding("oracle", "input_never_loaded", cc, f"{key} was replaced by an in-memory copy by compute()"))
+        # … nor by a SECOND compute() (or anything else that computes again, e.g. saving): "never"
+        if not F:
+            with dask.config.set(**sched):
+                mm.compute()
+            for key in ("input_data", "input_data1", "input_data2"):
+                if key in mm.data and lazy.get(key, False) and not isinstance(mm.data[key].data, da.Array):
+                    F.append(Finding("oracle", "input_never_loaded", cc + "|second-compute", f"{key} was replaced by an in-memory copy by a second compute()"))
+            got2 = summary(cls, mm)
+            if relerr(got2["spectrum"], got["spectrum"]) > 1e-12:
+                F.append(Finding("oracle", "compute_then_equals_eager", cc + "|second-compute", f"a second compute() changed the results by rel {relerr(got2['spectrum'], got['spectrum']):.2e}"))
         still = sorted(k for k, v in mm.data.items() if k not in ("input_data", "input_data1", "input_data2") and isinstance(v.data, da.Array))
         if still:
             F.append(Finding("oracle", "compute_then_equals_eager", cc + "|still-lazy", f"entries still lazy after compute(): {still[:5]}"))
